@@ -115,3 +115,35 @@ extern "C" void harness_ref_param()  /* vf: bounds=11_parameter_types_x_11_argum
     if (REFS[p].g && REFS[p].cls != 0) { bool ga = call(REFS[p].g, REFS[a].var); vf_notei("ga", ga); vf_assert(ga == pa, "const-ref-lvalue-argument-follows-equivalence"); }
     vf_reach("end");
 }
+
+// inline-if where an l-value is required (assignment target, increment, argument of a non-const reference parameter): accepted or rejected the
+// same way whichever branch comes first
+extern "C" void harness_inline_if_lvalue()  /* vf: bounds=pairs_from_10_int-typed_operands(mutable_and_constant_variables,array_elements,struct_fields,a_literal,an_arithmetic_expression)_x_6_uses(=,+=,post/pre-increment,reference_argument,plain_value);c?a:b_vs_!c?b:a reach=end */
+{
+    static const char* OPS[] = {"i", "j", "ci", "arr[0]", "arr2[i]", "r.a", "cr.a", "bi", "3", "i + 1"};
+    static const int NOPS = 10;
+    Ctx cx;
+    vf_assert(cx.declare(DECLS) == 0, "declarations-accepted");
+    int a = vf_pick("!a", NOPS), b = vf_pick("!b", NOPS), use = vf_pick("!use", 6);
+    std::string fwd = std::string("(b ? ") + OPS[a] + " : " + OPS[b] + ")", rev = std::string("(!b ? ") + OPS[b] + " : " + OPS[a] + ")";
+    auto form = [&](const std::string& x) {
+        switch (use) {
+        case 0: return x + " = 2";
+        case 1: return x + " += 1";
+        case 2: return x + "++";
+        case 3: return "--" + x;
+        case 4: return "f_int(" + x + ")";
+        default: return x + " + 1";
+        }
+    };
+    Verdict v1 = check(cx, form(fwd)), v2 = check(cx, form(rev));
+    vf_note(form(fwd).c_str()); vf_notei("forward_accepted", v1.ok); vf_notei("swapped_accepted", v2.ok);
+    vf_assert(v1.ok == v2.ok, "inline-if-lvalue-verdict-symmetric");
+    if (v1.ok && v2.ok) vf_assert(v1.kind == v2.kind, "inline-if-lvalue-kind-symmetric");
+    // the oracle for the two clear cases: both branches mutable l-values of the same type => accepted; a constant or an r-value branch => no l-value
+    bool mut_a = a == 0 || a == 1 || a == 3 || a == 4 || a == 5, mut_b = b == 0 || b == 1 || b == 3 || b == 4 || b == 5;
+    if (use <= 4 && mut_a && mut_b) vf_assert(v1.ok, "inline-if-over-two-mutable-lvalues-is-an-lvalue");
+    bool bad_a = a == 2 || a == 6 || a == 8 || a == 9, bad_b = b == 2 || b == 6 || b == 8 || b == 9;
+    if (use <= 4 && (bad_a || bad_b)) vf_assert(!v1.ok && !v2.ok, "inline-if-with-a-constant-or-rvalue-branch-is-no-lvalue");
+    vf_reach("end");
+}
